@@ -269,7 +269,10 @@ def lint_model(r):
         later = FNAMES[FNAMES.index(name) + 1:]
         args = None if r.random() < 0.15 else [r.choice(['p', 'q', 'p', 'a']) for _ in range(r.randint(1, 3))]
         local_names = ['a', 'b', 'p', 'q', 'x']
-        body = rstmts(r, r.randint(0, 9), local_names, ['a', 'b', 'p', 'u'], labels + ['H'], later, True)
+        # local variables may hold function values and be called (a call is a use of the name)
+        callables = later + ['systemLog'] + (['a', 'u'] if r.random() < 0.5 else [])
+        body = rstmts(r, r.randint(0, 9), local_names + (['systemLog'] + later if r.random() < 0.3 else []), ['a', 'b', 'p', 'u'],
+                      labels + ['H'], callables, True)
         fns.append(['function', name, args, False, r.random() < 0.2, body])
     body = rstmts(r, r.randint(0, 14), ['x', 'y'], ['x', 'y'], labels, [f[1] for f in fns] + ['hh'], False)
     # functions first (mostly), sometimes interleaved
@@ -288,7 +291,8 @@ ALPHABET = [
     ['expr', 'x', ['bin', '+', ['var', 'x'], num(1)]],
     LOGV('x=', 'x'),
     ['return', ['var', 'x']],
-    ['expr', 'u', ['var', 'q']],
+    ['expr', 'u', ['var', 'systemLog']],
+    ['expr', None, ['call', 'u', [['var', 'x']]]],
 ]
 
 
